@@ -111,16 +111,35 @@ def run(ctx, prop):
                          extra="SPECIFICATION LiveSpec")
         ctx.tlc("das/DAS.tla", lcfg, workers=workers, timeout=900, heap="12g")
 
-    # ---- 2. regression schedules from the unrepaired models
+    # ---- 2. regression schedules from the unrepaired models (cached by the hash of the
+    # specification in the quick tier: the schedules are a deterministic function of the spec)
     scenarios = []
-    for name, consts, inv, prp in CEX:
-        r = ctx.tlc(SPEC, write_cfg(ctx, name, consts, invariants=inv, props=prp), must_pass=False, count=False,
-                    workers=workers, timeout=600, heap="8g")
-        if not r.violated or not r.trace:
-            ctx.inconclusive("regression model %s no longer yields a counterexample (violated=%s)" % (name, r.violated))
-            continue
-        hist = r.trace[-1][1].get("hist")
-        scenarios.append(hist_to_scenario(name, hist, consts))
+    import hashlib
+    hsh = hashlib.sha256()
+    for fn in ("DAS.tla", "MCDAS.tla"):
+        hsh.update(open(os.path.join(vlib.VERIF, "spec", "das", fn), "rb").read())
+    hsh.update(json.dumps(CEX, sort_keys=True).encode() + json.dumps(BASE, sort_keys=True).encode())
+    cache_p = os.path.join(vlib.VERIF, "spec", "das", "cex_scripts.json")
+    cache = {}
+    if os.path.exists(cache_p):
+        try:
+            cache = json.load(open(cache_p))
+        except Exception:
+            cache = {}
+    if quick and cache.get("spec_hash") == hsh.hexdigest():
+        scenarios = list(cache["scenarios"])
+        ctx.note("regression schedules taken from spec/das/cex_scripts.json (specification unchanged)")
+    else:
+        for name, consts, inv, prp in CEX:
+            r = ctx.tlc(SPEC, write_cfg(ctx, name, consts, invariants=inv, props=prp), must_pass=False, count=False,
+                        workers=workers, timeout=600, heap="8g")
+            if not r.violated or not r.trace:
+                ctx.inconclusive("regression model %s no longer yields a counterexample (violated=%s)" % (name, r.violated))
+                continue
+            hist = r.trace[-1][1].get("hist")
+            scenarios.append(hist_to_scenario(name, hist, consts))
+        if len(scenarios) == len(CEX) and not vlib.ALT:
+            json.dump({"spec_hash": hsh.hexdigest(), "scenarios": scenarios}, open(cache_p, "w"), indent=1)
 
     # ---- 3. simulated behaviours of a larger model as scripts
     nsim = 60 if quick else 600
